@@ -10,7 +10,7 @@
                                            the Go verdict; -1 if the name is unknown to Validators
      mode 0 = insert the byte before position pos, 1 = replace the byte at position pos *)
 From Coq Require Import List String Ascii Bool ZArith Arith.
-From NIC Require Import Tmpl.LexAux Tmpl.Regex Tmpl.Validators.
+From NIC Require Import Lex.Lexer Tmpl.LexAux Tmpl.Regex Tmpl.Validators.
 Import ListNotations.
 Open Scope Z_scope.
 
@@ -50,3 +50,24 @@ Definition sweep_row (name sample : string) (pos : Z) (mode : Z) (bits : string)
   | None => -1
   | Some _ => sweep_go name mode (Z.to_nat pos) sample all_bytes bits
   end.
+
+(* ---- the selector table of action.proxy.rewritePath (Validators.rewrite_path_lang / rewrite_path_site) against the
+   real validator and generator: the same one-byte sweep, the real verdict being ValidateVirtualServer on a
+   VirtualServer whose only route has the given path kind and location kind *)
+Fixpoint sel_go (k : path_kind) (l : loc_kind) (mode : Z) (pos : nat) (sample : string) (cs : list ascii) (bits : string) : Z :=
+  match cs, bits with
+  | c :: cs', String b bits' =>
+      let want := Ascii.eqb b "1"%char in
+      (if Bool.eqb (rewrite_path_accepts k l (perturb mode pos c sample)) want then 0 else 1)
+      + sel_go k l mode pos sample cs' bits'
+  | [], EmptyString => 0
+  | _, _ => 1000
+  end.
+
+Definition selector_sweep_row (k : path_kind) (l : loc_kind) (sample : string) (pos mode : Z) (bits : string) : Z :=
+  sel_go k l mode (Z.to_nat pos) sample all_bytes bits.
+
+(* 1 if the tokenizer state observed at the place where the real generator printed the value is the state of the
+   site kind the table gives *)
+Definition selector_site_row (k : path_kind) (l : loc_kind) (observed : Lex.Lexer.lstate) : Z :=
+  if Lex.Lexer.lstate_eqb (site_state (rewrite_path_site k l)) observed then 1 else 0.
